@@ -34,29 +34,33 @@ for f in known:
     if f.get("status") != "fixed" or (want and f["id"] not in want):
         continue
     fid, pid, commit = f["id"], f["property"], f["commit"]
-    sh("git reset -q --hard HEAD ; git clean -fdq")
+    sh("git revert --quit 2>/dev/null; git reset -q --hard HEAD ; git clean -fdq")
     def rev(c):
-        rc, diff = sh(f"git -C /repo show {c} --format= ")
-        open("/tmp/revert.patch", "w").write(diff)
-        return sh("git apply -R /tmp/revert.patch")
+        # a real `git revert` (3-way) copes with later unrelated edits near the hunk
+        rc, o = sh(f"git -c user.name=x -c user.email=x@x revert --no-commit {c}")
+        if rc != 0:
+            sh("git revert --abort; git reset -q --hard HEAD")
+        return rc, o
     rc, o = rev(commit)
     composite = [commit]
     if rc != 0:
         # later fix: commits touching the same files have to be reverted first (newest first)
-        sh("git reset -q --hard HEAD ; git clean -fdq")
+        sh("git revert --quit 2>/dev/null; git reset -q --hard HEAD ; git clean -fdq")
         rc0, files = sh(f"git -C /repo show {commit} --format= --name-only")
         files = set(files.split())
         rc0, later = sh(f"git -C /repo log --format=%h {commit}..HEAD --grep='^fix:' -- " + " ".join(files))
         composite = later.split() + [commit]
         ok = True
         for c in composite:
-            rc, o = rev(c)
+            rc, o = sh(f"git -c user.name=x -c user.email=x@x revert --no-commit {c}")
             if rc != 0:
                 ok = False
                 break
         if not ok:
-            print(f"{fid}: reverse patch of {commit} does not apply even as composite {composite}: {o[-300:]}", flush=True)
+            sh("git revert --abort; git reset -q --hard HEAD")
+            print(f"{fid}: revert of {commit} does not apply even as composite {composite}: {o[-300:]}", flush=True)
             continue
+    sh("git reset -q")        # keep the reverted tree as working-tree changes only
     rc, rdiff = sh("git diff")
     chk = {}
     for tier in ("quick", "thorough"):
@@ -84,4 +88,4 @@ for f in known:
                "ran": f"VERIF_REPO=<worktree of /repo HEAD with patch.diff applied> ./check {pid} (orchestrate/revertrun.py)",
                "check_result": chk, "caught": caught}, open(f"{dst}/meta.json", "w"), indent=1)
     print(f"revert-{fid} ({pid}, {commit}): caught={caught} {[(t, v['exit'], v['lines'][:1]) for t, v in chk.items()]}", flush=True)
-sh("git reset -q --hard HEAD ; git clean -fdq")
+sh("git revert --quit 2>/dev/null; git reset -q --hard HEAD ; git clean -fdq")
